@@ -57,6 +57,23 @@ def _register_calls(fn: core.FuncInfo) -> list[ast.Call]:
     ]
 
 
+def _accepts(node: ast.AST, var: str, member: str) -> bool:
+    """``var.member`` (or every item of it: a for loop over it, optionally through ``.feature``) receives ``accept(self)``."""
+    loopvars = {}
+    for n in ast.walk(node):
+        if isinstance(n, ast.For) and isinstance(n.target, ast.Name) and _mentions(n.iter, var, member):
+            loopvars[n.target.id] = n
+    for c in ast.walk(node):
+        if isinstance(c, ast.Call) and isinstance(c.func, ast.Attribute) and c.func.attr == 'accept' and [core.src(a) for a in c.args] == ['self']:
+            recv = c.func.value
+            if _mentions(recv, var, member):
+                return True
+            base = recv.value if isinstance(recv, ast.Attribute) and recv.attr == 'feature' else recv
+            if isinstance(base, ast.Name) and base.id in loopvars and any(c is x for x in ast.walk(loopvars[base.id])):
+                return True
+    return False
+
+
 def _mentions(node: ast.AST, var: str, member: str) -> bool:
     return any(isinstance(n, ast.Attribute) and n.attr == member and isinstance(n.value, ast.Name) and n.value.id == var for n in ast.walk(node))
 
@@ -156,14 +173,55 @@ def registration(ctx) -> None:
         var = [p for p in fn.param_names if p != 'self'][0]
         for m in members:
             names = {m, 'features'} if m == 'selection' else {m}
-            covered = any(_mentions(fn.node, var, n) for n in names)
-            ctx.check(covered, 'R-SIBLING', fn, f'_Columns.{mname} visits `{var}.{m}` like the parser registers it', fn.node, key=f'{mname}:{m}')
+            covered = any(_accepts(fn.node, var, n) for n in names)
+            ctx.check(covered, 'R-SIBLING', fn, f'_Columns.{mname} visits `{var}.{m}` (an accept(self) on the member or on each of its items) like the parser registers it', fn.node, key=f'{mname}:{m}')
             # visited whenever present: an accept() of the member may only be guarded by its own positive None-test
             for c in core.calls_in(fn.node):
                 if isinstance(c.func, ast.Attribute) and c.func.attr == 'accept' and any(_mentions(c.func.value, var, n) for n in names) and not any(isinstance(a, (ast.For, ast.comprehension)) for a in core.ancestors(c) if a is not fn.node):
                     gs = [(core.src(t), pol) for t, pol in cfg.guards(c, fn.node, siblings=False)]
                     okg = all((t == f'{var}.{m} is not None' and pol) or (t == f'{var}.{m} is None' and not pol) for t, pol in gs)
                     ctx.check(okg, 'R-SIBLING', fn, f'`{var}.{m}` is visited whenever it is present (guards: {gs})', c, key=f'{mname}:{m}:guard')
+
+
+def lazy_columns(ctx) -> None:
+    """The lazy feed loads exactly the columns its extractor collects: the extractor must descend everywhere (each override
+    ends in its super() call), record a plain column as it is and an element of a referenced *table* as the column of that
+    table (so that the load request names real table columns), and descend into any other referenced source."""
+    prog = ctx.prog
+    cols = prog.cls(f'{LAZY}:_Columns')
+    n = 0
+    for mname, m in cols.methods.items():
+        if not mname.startswith('visit_'):
+            continue
+        n += 1
+        fn = prog.func(f'{cols.ref}.{mname}')
+        var = [p for p in fn.param_names if p != 'self'][0]
+        sup = [st for st in fn.body if isinstance(st, ast.Expr) and core.src(st.value) == f'super().{mname}({var})']
+        ctx.check(len(sup) == 1 and not cfg.cguards(sup[0], fn.node), 'R-SIBLING', fn, f'_Columns.{mname} continues the default descent unconditionally (super().{mname}({var}))', fn.node, key=f'{mname}:super')
+    ctx.floor('C14.lazy-columns', n, 3)
+    ve = prog.func(f'{cols.ref}.visit_element')
+    f = ve.param_names[1]
+    col = (f'isinstance({f}, dsl.Column)', True)
+    tab = (f'isinstance({f}.origin.instance, dsl.Table)', True)
+    shared.stmt_under(ctx, 'R-SIBLING', ve, f'self._items.add({f})', [col], 'a table column is collected as it is', 'visit_element:column', siblings=False)
+    shared.stmt_under(ctx, 'R-SIBLING', ve, f'self._items.add(dsl.Column({f}.origin.instance, {f}.name))', [(col[0], False), tab], 'an element of a referenced table is collected as the column of that table', 'visit_element:reference-table', siblings=False)
+    shared.stmt_under(ctx, 'R-SIBLING', ve, f'{f}.origin.instance.accept(self)', [(col[0], False), (tab[0], False)], 'an element of any other referenced source makes the extractor descend into that source', 'visit_element:reference-other', siblings=False)
+    rd = prog.func(f'{LAZY}:Feed.Reader.__call__')
+    loops = [x for x in core.walk_local(rd.node) if isinstance(x, ast.For) and '_Columns.extract(statement)' in core.src(x.iter)]
+    ctx.check(len(loops) == 1 and isinstance(loops[0].target, ast.Tuple) and len(loops[0].target.elts) == 2, 'R-SIBLING', rd, 'the reader requests, per table, the columns the extractor found for the statement being read', rd.node, key='reader:extract')
+    if loops:
+        t, c = [core.src(e) for e in loops[0].target.elts]
+        parts = [x for x in core.calls_in(loops[0]) if isinstance(x.func, ast.Attribute) and x.func.attr == 'partitions']
+        ctx.check(len(parts) == 1 and core.src(parts[0].args[0]) == c and core.src(parts[0].func.value) in ('origin', f'self._origins[{t}]'), 'R-SIBLING', rd, 'the partitions are requested from the table\'s own origin with that table\'s columns', parts[0] if parts else loops[0], key='reader:partitions')
+        org = [a for a in core.walk_local(loops[0]) if isinstance(a, ast.Assign) and core.src(a.targets[0]) == 'origin']
+        ctx.check(all(core.src(a.value) == f'self._origins[{t}]' for a in org), 'R-SIBLING', rd, 'the origin is looked up by the table of the same iteration', loops[0], key='reader:origin')
+        miss = [r for r in core.walk_local(loops[0]) if isinstance(r, ast.Raise)]
+        ctx.check(len(miss) == 1 and cfg.cguards(miss[0], loops[0]) == [(f'{t} not in self._origins', True)] and 'MissingError' in core.src(miss[0]), 'R-SIBLING', rd, 'a table without an origin is refused (missing), never silently skipped', loops[0], key='reader:missing')
+        reg = [x for x in core.calls_in(loops[0]) if isinstance(x.func, ast.Attribute) and x.func.attr == 'execute']
+        g = cfg.cguards(reg[0], loops[0]) if reg else None
+        ctx.check(len(reg) == 1 and g == [('origin not in self.PARTITIONS or self.PARTITIONS[origin].symmetric_difference(partitions)', True)], 'R-SIBLING', rd, f'the origin is (re)registered whenever it is new or its partition set changed (guards {g})', reg[0] if reg else loops[0], key='reader:reregister')
+    ext = prog.func(f'{cols.ref}.extract')
+    ctx.check('key=lambda c: c.origin' in core.src(ext.node) and 'sorted(cls()(statement)' in core.src(ext.node), 'R-SIBLING', ext, 'columns are grouped by their own table', ext.node, key='extract:groupby')
 
 
 # ---- factor soundness -----------------------------------------------------------------------------
@@ -511,6 +569,7 @@ def run(ctx) -> None:
     prog = ctx.prog
     tenv = types.TypeEnv(prog)
     registration(ctx)
+    lazy_columns(ctx)
     alias_rule(ctx)
     from . import C06
 
